@@ -96,7 +96,9 @@ def main(ck, tier, w):
         n, nf, mode, r0 = j
         blocks = chains.std_chain(n)
         pl = layout.random_placement(r0, n, nf, mode)
-        d = layout.materialise(w.sub('dd'), blocks, pl, r0, extra_file=True,
+        # one block of every second run lies beyond the 4 GiB mark of a sparse blk file (offsets wider than 32 bit)
+        big = (r0.randrange(n), r0.choice([2 ** 32, 2 ** 32 + 9, 5 * 2 ** 30 + 13, 2 ** 33 + 1]) + r0.randrange(1000)) if r0.random() < 0.5 or nf == 1 else None
+        d = layout.materialise(w.sub('dd'), blocks, pl, r0, extra_file=True, big_offset=big,
                                fileno={f: f * 3 + 1 for f in range(nf)} if nf > 8 else None)
         tr = w.sub('trace')
         r = layout.run_csv(w, d, 'bitcoin', 0, None, trace=tr)
